@@ -515,6 +515,23 @@ def allclose(a, b, rtol=1e-5, atol=1e-8, **kw):
     return _np.allclose(a, b, rtol=rtol, atol=atol, **kw)
 
 
+def isclose(a, b, rtol=1e-5, atol=1e-8, equal_nan=False):
+    if has_sym(a) or has_sym(b):
+        # numpy's definition, elementwise: |a-b| <= atol + rtol*|b|
+        aa, bb = _np.broadcast_arrays(_np.asarray(a, dtype=object),
+                                      _np.asarray(b, dtype=object))
+        out = _np.empty(aa.shape, dtype=object)
+        for idx in _np.ndindex(*aa.shape):
+            x, y = aa[idx], bb[idx]
+            x = x if isinstance(x, Q) else Q(x)
+            y = y if isinstance(y, Q) else Q(y)
+            out[idx] = abs(x-y) <= Q(atol)+Q(rtol)*abs(y)
+        if out.ndim == 0:
+            return out.item()
+        return out.view(SymArray)
+    return _np.isclose(a, b, rtol=rtol, atol=atol, equal_nan=equal_nan)
+
+
 def any__(a, *args, **kw):
     if isinstance(a, _np.ndarray) and a.dtype == object and not args \
             and not kw:
@@ -588,7 +605,8 @@ symnp = _Namespace(_np, dict(
     imag=imag, conj=conj, conjugate=conj, abs=abs_, absolute=abs_,
     sqrt=sqrt, exp=_uf('exp', _np.exp), log=_uf('ln', _np.log),
     log10=_uf('lg', _np.log10), round=round_, around=round_, sort=sort,
-    linalg=_np_linalg, allclose=allclose, unique=unique, vstack=vstack,
+    linalg=_np_linalg, allclose=allclose, isclose=isclose, unique=unique,
+    vstack=vstack,
     sum=sum_, any=any__, all=all__,
     max=maximum_reduce, amax=maximum_reduce, min=minimum_reduce,
     amin=minimum_reduce, clip=clip,
